@@ -107,6 +107,9 @@ pub struct RunSpec {
     pub timeout: Duration,
     /// directory for stdout/stderr capture files
     pub out_dir: PathBuf,
+    /// RLIMIT_AS in bytes (runaway allocations end the child instead of the sandbox)
+    pub as_limit: Option<u64>,
+    pub stdin_data: Option<Vec<u8>>,
 }
 
 impl RunSpec {
@@ -119,6 +122,8 @@ impl RunSpec {
             nofile: None,
             timeout: Duration::from_secs(30),
             out_dir: out_dir.to_path_buf(),
+            as_limit: None,
+            stdin_data: None,
         }
     }
 }
@@ -138,15 +143,28 @@ pub fn run_plain(spec: &RunSpec) -> RunOut {
     for a in &spec.args {
         c.arg(p(a));
     }
-    c.current_dir(&spec.cwd).stdin(Stdio::null()).stdout(outf).stderr(errf);
+    let stdin_cfg = match &spec.stdin_data {
+        Some(d) => {
+            let inp = spec.out_dir.join("stdin");
+            std::fs::write(&inp, d).expect("stdin file");
+            Stdio::from(File::open(&inp).expect("stdin file"))
+        }
+        None => Stdio::null(),
+    };
+    c.current_dir(&spec.cwd).stdin(stdin_cfg).stdout(outf).stderr(errf);
     let umask = spec.umask;
     let nofile = spec.nofile;
+    let as_limit = spec.as_limit;
     unsafe {
         c.pre_exec(move || {
             libc::umask(umask);
             if let Some(n) = nofile {
                 let rl = libc::rlimit { rlim_cur: n, rlim_max: n };
                 libc::setrlimit(libc::RLIMIT_NOFILE, &rl);
+            }
+            if let Some(n) = as_limit {
+                let rl = libc::rlimit { rlim_cur: n, rlim_max: n };
+                libc::setrlimit(libc::RLIMIT_AS, &rl);
             }
             Ok(())
         });
